@@ -271,7 +271,11 @@ class FragGen:
         elif shape == "conditional":
             # spreads under @skip/@include: on the spread itself, on an enclosing inline fragment, inside a
             # fragment that is itself spread conditionally (nested), next to unconditional spreads of the same
-            base = self.new_fragment("Dog", self.leaves("Dog", 1, 2), self.mixin(0.2))
+            # `base` needs imports of its own (@mixin on it or on a field, the enum Kind); operations spread it only
+            # conditionally (-> unpacked, excluded by package.py), `holder` uses it as a base (-> re-added)
+            base = self.new_fragment("Dog", ["kind" + self.mixin(0.3)] + self.leaves("Dog", 1, 1), self.mixin(0.7))
+            holder = self.new_fragment("Dog", ["bark", "..." + base])
+            op("Holder", "dog", ["..." + holder] + (["..." + base + self.cond()] if r.random() < 0.7 else []))
             mid = self.new_fragment("Dog", self.leaves("Dog", 1, 1) + ["..." + base + (self.cond(True) if r.random() < 0.5 else "")])
             fa = self.new_fragment("Animal", self.leaves("Animal", 1, 2))
             op("CondSpread", "dog", ["id", "..." + base + self.cond()])
